@@ -4,6 +4,8 @@ import (
 	"encoding/json"
 	"fmt"
 	"sync"
+
+	"github.com/oasdiff/yaml3"
 )
 
 func encodeBody(body any, mediaType string) ([]byte, error) {
@@ -21,7 +23,20 @@ type BodyEncoder func(body any) ([]byte, error)
 
 var bodyEncodersM sync.RWMutex
 var bodyEncoders = map[string]BodyEncoder{
-	"application/json": json.Marshal,
+	// every media type that has a JSON or YAML body decoder (see init in req_resp_decoder.go):
+	// a body that can be decoded and completed with defaults must also be written back
+	"application/json":            json.Marshal,
+	"application/json-patch+json": json.Marshal,
+	"application/ld+json":         json.Marshal,
+	"application/hal+json":        json.Marshal,
+	"application/vnd.api+json":    json.Marshal,
+	"application/problem+json":    json.Marshal,
+	"application/x-yaml":          yamlBodyEncoder,
+	"application/yaml":            yamlBodyEncoder,
+}
+
+func yamlBodyEncoder(body any) ([]byte, error) {
+	return yaml.Marshal(body)
 }
 
 // RegisterBodyEncoder enables package-wide decoding of contentType values
